@@ -18,7 +18,7 @@ from mc.refs import prebuildhost as H
 
 NEEDS_BRIDGEPOINT = True
 PROP = 'c05'
-BUDGET_S = {'quick': 300, 'thorough': 1500}
+BUDGET_S = {'quick': 3600, 'thorough': 14400}
 ASSUMPTIONS = [
     'the OAL parser is the one regenerated from the grammar of the working tree; that it builds the right tree for a text is C07\'s subject',
     'optional words are not part of the program: "assign"; the statement keywords "bridge" / "transform", which the grammar reduces to '
